@@ -447,7 +447,8 @@ struct PathNorm<'a> {
     sites: usize,
 }
 fn is_module_seg(s: &str) -> bool {
-    s != "self" && s != "Self" && s.chars().all(|c| c.is_lowercase() || c == '_' || c.is_ascii_digit())
+    const PRIMS: [&str; 17] = ["i8", "i16", "i32", "i64", "i128", "isize", "u8", "u16", "u32", "u64", "u128", "usize", "bool", "char", "str", "f32", "f64"];
+    s != "self" && s != "Self" && !PRIMS.contains(&s) && s.chars().all(|c| c.is_lowercase() || c == '_' || c.is_ascii_digit())
 }
 impl<'a> VisitMut for PathNorm<'a> {
     fn visit_path_mut(&mut self, p: &mut Path) {
@@ -782,7 +783,18 @@ impl<'a> VisitMut for Rw<'a> {
         self.loops += 1;
         visit_mut::visit_expr_for_loop_mut(self, f);
         let lit = LitInt::new(&k.to_string(), Span::call_site());
-        let it = (*f.expr).clone();
+        let mut it = (*f.expr).clone();
+        // T14: `for x in m.values()` / `m.keys()` (an SDK container *value*, not an iterator) ->
+        // `for x in m.values().into_iter()`: exactly Rust's own desugaring of `for` (IntoIterator::into_iter);
+        // Verus' for-loops accept only iterators.
+        if let Expr::MethodCall(mc) = &it {
+            let m = mc.method.to_string();
+            if (m == "values" || m == "keys") && mc.args.is_empty() {
+                let inner = it.clone();
+                it = parse_quote!(#inner.into_iter());
+                self.site("T14-for-into-iter");
+            }
+        }
         *f.expr = parse_quote!(__vx_iter!(#lit, #it));
         f.body.stmts.insert(0, parse_quote!(__vx_loop!(#lit);));
         // T12: continue in tail position
